@@ -1099,3 +1099,156 @@ func (c *Ctx) noContextCause(rule string, rels []string) {
 		c.info(rule, strings.Join(rels, "+")+"/no-context-cause", "-", "the end of a context is never read through context.Cause")
 	}
 }
+
+// forwarderFinding describes a pure forwarder (a function whose body is one call whose results it returns) that does not
+// hand each of its parameters to that call exactly once.
+type forwarderFinding struct {
+	f       *ssa.Function
+	call    ssa.Instruction
+	dropped []string
+	twice   []string
+}
+
+// forwarders lists, for the functions given, the pure forwarders and what each does with its parameters. A parameter counts
+// as handed over when the call receives it directly, sliced/converted, or wrapped in an interface; the receiver of a method
+// may be the receiver of the call.
+func forwarders(fns []*ssa.Function) (all []*ssa.Function, bad []forwarderFinding) {
+	for _, f := range fns {
+		if f.Parent() != nil || f.Blocks == nil || len(f.Blocks) != 1 || len(f.Params) == 0 {
+			continue
+		}
+		var calls []ssa.Instruction
+		other := false
+		for _, in := range f.Blocks[0].Instrs {
+			switch x := in.(type) {
+			case *ssa.Call:
+				if _, isBuiltin := x.Call.Value.(*ssa.Builtin); isBuiltin {
+					continue
+				}
+				calls = append(calls, x)
+			case *ssa.Return, *ssa.Extract, *ssa.DebugRef, *ssa.MakeInterface, *ssa.Slice, *ssa.ChangeType, *ssa.Convert, *ssa.ChangeInterface, *ssa.UnOp, *ssa.FieldAddr, *ssa.Field:
+			default:
+				other = true
+			}
+		}
+		if other || len(calls) == 0 {
+			continue
+		}
+		// the last call is the one whose results are returned; the others must only prepare a receiver (GetGlobalFileSystem())
+		last := calls[len(calls)-1].(*ssa.Call)
+		prep := true
+		for _, c0 := range calls[:len(calls)-1] {
+			if len(c0.(*ssa.Call).Call.Args) != 0 {
+				prep = false
+			}
+		}
+		if !prep {
+			continue
+		}
+		all = append(all, f)
+		count := map[*ssa.Parameter]int{}
+		note := func(v ssa.Value) {
+			seen := map[ssa.Value]bool{}
+			var walk func(v ssa.Value, d int)
+			walk = func(v ssa.Value, d int) {
+				if v == nil || seen[v] || d > 6 {
+					return
+				}
+				seen[v] = true
+				switch x := v.(type) {
+				case *ssa.Parameter:
+					count[x]++
+				case *ssa.MakeInterface:
+					walk(x.X, d+1)
+				case *ssa.ChangeInterface:
+					walk(x.X, d+1)
+				case *ssa.ChangeType:
+					walk(x.X, d+1)
+				case *ssa.Convert:
+					walk(x.X, d+1)
+				case *ssa.Slice:
+					walk(x.X, d+1)
+				case *ssa.UnOp:
+					walk(x.X, d+1)
+				case *ssa.FieldAddr:
+					walk(x.X, d+1)
+				case *ssa.Field:
+					walk(x.X, d+1)
+				}
+			}
+			walk(v, 0)
+		}
+		for _, c0 := range calls[:len(calls)-1] {
+			// what a preparing call is made on (ctx.Err(), GetGlobalFileSystem()) is used
+			if cc := c0.(*ssa.Call); cc.Call.IsInvoke() {
+				note(cc.Call.Value)
+			}
+		}
+		if last.Call.IsInvoke() {
+			note(last.Call.Value)
+		}
+		for _, a := range last.Call.Args {
+			note(a)
+		}
+		var fd forwarderFinding
+		for i, p := range f.Params {
+			if p.Name() == "_" {
+				continue
+			}
+			switch {
+			case count[p] == 0:
+				// an unnamed receiver that is simply not needed (package-level state) is not a dropped argument
+				if i == 0 && f.Signature.Recv() != nil {
+					continue
+				}
+				fd.dropped = append(fd.dropped, p.Name())
+			case count[p] > 1 && !(i == 0 && f.Signature.Recv() != nil):
+				fd.twice = append(fd.twice, p.Name())
+			}
+		}
+		if len(fd.dropped)+len(fd.twice) > 0 {
+			fd.f, fd.call = f, last
+			bad = append(bad, fd)
+		}
+	}
+	return
+}
+
+// forwardersKeepTheirArguments: the variants of an operation (the package-level function, the method, the …WithContext,
+// …WithLimits, …As… forms) are mostly one-line forwarders to the guarded implementation. A forwarder that does not hand one of
+// its parameters on (the limits, the patterns, the failure message) or hands one over twice in the place of another silently
+// changes what that variant does, and only that variant. Decided for every pure forwarder selected by `keep`: each named
+// parameter reaches the forwarded call exactly once.
+func (c *Ctx) forwardersKeepTheirArguments(rule string, rels []string, keep func(*ssa.Function) bool, consequence string) {
+	for _, rel := range rels {
+		var fns []*ssa.Function
+		for _, f := range c.srcFuncs(rel) {
+			if keep == nil || keep(f) {
+				fns = append(fns, f)
+			}
+		}
+		all, bad := forwarders(fns)
+		badOf := map[*ssa.Function]forwarderFinding{}
+		for _, b := range bad {
+			badOf[b.f] = b
+		}
+		for _, f := range all {
+			b, isBad := badOf[f]
+			why := ""
+			if isBad {
+				if len(b.dropped) > 0 {
+					why += "the parameter(s) " + strings.Join(b.dropped, ", ") + " are not handed to the call it forwards to (" + c.ipos(b.call) + ")"
+				}
+				if len(b.twice) > 0 {
+					if why != "" {
+						why += "; "
+					}
+					why += "the parameter(s) " + strings.Join(b.twice, ", ") + " are handed over more than once (" + c.ipos(b.call) + ")"
+				}
+				why += ": " + consequence
+			}
+			c.FuncsSeen[fname(f)] = true
+			c.check(!isBad, rule, fname(f)+"/forwards-its-arguments", c.pos(f.Pos()), "every named parameter reaches the forwarded call exactly once", why)
+		}
+	}
+}
